@@ -40,6 +40,10 @@ Definition shr64 (x s : N) : option N := if s <? 64 then Some (x / 2 ^ s) else N
 Definition ushl64 (x s : N) : N := if s <? 64 then (x * 2 ^ s) mod M64 else 0.
 Definition ushr64 (x s : N) : N := if s <? 64 then x / 2 ^ s else 0.
 
+(* BigUint >> s.  Same value as N.shiftr p s (lemma bshr_eq in ValueProofs.v) but evaluates in time
+   independent of s (N.shiftr iterates s times; amounts go up to 2^64-1). *)
+Definition bshr (p s : N) : N := if N.size p <=? s then 0 else N.shiftr p s.
+
 Definition bind {A B} (a : option A) (f : A -> option B) : option B :=
   match a with Some x => f x | None => None end.
 Notation "'do' x <- a ; b" := (bind a (fun x => b)) (at level 200, x name, a at level 100, b at level 200).
@@ -50,6 +54,10 @@ Definition nz (x : N) : bool := negb (x =? 0).
 Definition sext (w p : N) : Z :=
   let q := p mod 2 ^ w in
   if N.testbit q (w - 1) then (Z.of_N q - 2 ^ Z.of_N w)%Z else Z.of_N q.
+
+(* `let sh = 64 - width; (payload << sh) as i64 >> sh` : usize subtraction underflows when
+   width > 64 and the u64 shift overflows when width = 0; both panic in a debug build *)
+Definition sh_ok (w : N) : bool := (1 <=? w) && (w <=? 64).
 
 (* i64 -> u64 reinterpretation *)
 Definition of_i64 (z : Z) : N := Z.to_N (z mod 2 ^ 64)%Z.
@@ -288,6 +296,7 @@ Definition eval_binary (o : op) (x y : value) (width : N) (signed : bool) : opti
       match rp a with
       | RU =>
           if is_xz a || is_xz b || (N.land (pl b) (umask width) =? 0) then Some (unew_x width signed)
+          else if signed && negb (sh_ok width) then None   (* sh = 64 - width; payload << sh *)
           else
             let p := if signed
                      then let xs := sext width (pl a) in let ys := sext width (pl b) in
@@ -307,6 +316,7 @@ Definition eval_binary (o : op) (x y : value) (width : N) (signed : bool) : opti
       match rp a with
       | RU =>
           if is_xz a || is_xz b || (N.land (pl b) (umask width) =? 0) then Some (unew_x width signed)
+          else if signed && negb (sh_ok width) then None
           else
             let p := if signed
                      then let xs := sext width (pl a) in let ys := sext width (pl b) in
@@ -367,7 +377,7 @@ Definition eval_binary (o : op) (x y : value) (width : N) (signed : bool) : opti
       | Some s =>
           let r := match rp e with
                    | RU => let s' := N.min s 64 in mkV RU (ushr64 (pl e) s') (ushr64 (mk e) s') (wd e) false
-                   | RB => mkV RB (N.shiftr (pl e) s) (N.shiftr (mk e) s) (wd e) false
+                   | RB => mkV RB (bshr (pl e) s) (bshr (mk e) s) (wd e) false
                    end in
           expand r width false
       end
@@ -390,6 +400,7 @@ Definition eval_binary (o : op) (x y : value) (width : N) (signed : bool) : opti
       match to_shift_amount y with
       | None => Some (match rp e with RU => unew_x width false | RB => bnew_x width false end)
       | Some s =>
+          if signed && (wd e =? 0) then None else   (* x.width - 1 on u32 *)
           let m := rmask (rp e) in
           let ext_mask := N.lxor (m (width - s)) (m width) in
           let pmsb := N.testbit (pl e) (wd e - 1) in
@@ -399,7 +410,7 @@ Definition eval_binary (o : op) (x y : value) (width : N) (signed : bool) : opti
           let r := match rp e with
                    | RU => let s' := N.min s 64 in
                            mkV RU (N.lor (ushr64 (pl e) s') extp) (N.lor (ushr64 (mk e) s') extm) (wd e) (sg e)
-                   | RB => mkV RB (N.lor (N.shiftr (pl e) s) extp) (N.lor (N.shiftr (mk e) s) extm) (wd e) (sg e)
+                   | RB => mkV RB (N.lor (bshr (pl e) s) extp) (N.lor (bshr (mk e) s) extm) (wd e) (sg e)
                    end in
           expand r width false
       end
@@ -420,6 +431,7 @@ Definition eval_binary (o : op) (x y : value) (width : N) (signed : bool) : opti
         | None => Some (match rp e with RU => unew_x width false | RB => bnew_x width false end)
         | Some s =>
             if is_xz e then Some (mkV (rp e) 0 (rmask (rp e) width) width (sg e))
+            else if sg e && (wd e =? 0) then None   (* to_i64 / to_bigint: self.width - 1 *)
             else if sg e then
               let base := match rp e with RU => sext (wd e) (pl e) | RB => to_bigint e end in
               let r := pow_mod_width (Z.abs_N base) (base <? 0)%Z s width in
